@@ -121,11 +121,6 @@ package services
 //@   nopanic
 //@   requires s != nil && s.client != nil && req != nil && tables_wf()
 
-//@ func (*publisherServer).ListTopicSubscriptions(s, ctx, req) (resp, err)
-//@   property C16
-//@   uses tables notifyspec
-//@   nopanic
-//@   requires s != nil && s.client != nil && req != nil && tables_wf()
 
 //@ func (*publisherServer).Publish(s, ctx, req) (resp, err)
 //@   property C16
@@ -237,3 +232,24 @@ package services
 //@   loop 1
 //@     invariant forall k int :: {grpcSnapshots[k]} {snaps[k]} 0 <= k && k <= idx ==> grpcSnapshots[k] != nil && !allocated(grpcSnapshots[k]) && grpcSnapshots[k].Name == snaps[k].Name
 //@     invariant len(grpcSnapshots) == len(snaps) && req != nil
+
+// C12: a page of ListTopicSubscriptions: every entry names a live subscription attached to the live topic of the
+// requested name, after the page token; bounded; complete when not full; next-page token iff full.
+//@ func (*publisherServer).ListTopicSubscriptions(s, ctx, req) (resp, err)
+//@   property C16 C12
+//@   uses tables notifyspec
+//@   nopanic
+//@   requires s != nil && s.client != nil && req != nil && tables_wf()
+//@   ensures page_sound: [C12] err == nil ==> resp != nil && (forall k int :: {resp.Subscriptions[k]} 0 <= k && k < len(resp.Subscriptions) ==>
+//@             (exists x Id :: subscriptions.exists(x) && subscriptions.deleted_at$null(x) && live_topic(subscriptions.topic_id(x)) && topics.name(subscriptions.topic_id(x)) == req.Topic && after_token(x, req.PageToken) && subscriptions.name(x) == resp.Subscriptions[k]))
+//@   ensures page_bounded: [C12] err == nil ==> len(resp.Subscriptions) <= page_limit(req.PageSize)
+//@   ensures page_complete: [C12] err == nil && len(resp.Subscriptions) < page_limit(req.PageSize) ==> resp.NextPageToken == "" &&
+//@             (forall x Id :: subscriptions.exists(x) && subscriptions.deleted_at$null(x) && live_topic(subscriptions.topic_id(x)) && topics.name(subscriptions.topic_id(x)) == req.Topic && after_token(x, req.PageToken) ==> (exists k int :: 0 <= k && k < len(resp.Subscriptions) && resp.Subscriptions[k] == subscriptions.name(x)))
+//@   ensures next_token: [C12] err == nil && len(resp.Subscriptions) >= page_limit(req.PageSize) ==>
+//@             (exists x Id :: subscriptions.exists(x) && resp.NextPageToken == uuidstr(x) && subscriptions.name(x) == resp.Subscriptions[len(resp.Subscriptions) - 1] &&
+//@                (forall y Id :: y > x ==> after_token(y, resp.NextPageToken)) && (forall y Id :: after_token(y, resp.NextPageToken) ==> y > x))
+//@ func (*publisherServer).ListTopicSubscriptions$1(tx) (err)
+//@   inline
+//@   loop 1
+//@     invariant forall k int :: {subNames[k]} {subs[k]} 0 <= k && k <= idx ==> subNames[k] == subs[k].Name
+//@     invariant len(subNames) == len(subs) && req != nil
